@@ -51,6 +51,12 @@ func (c *Chain) ExportImport(vo ViewOpts) (rep M, nc *Chain, err error) {
 		return rep, nil, e
 	}
 	rep["exportOk"] = true
+	if g, e := c.ProjectGenesis(exp1.AppState); e == nil {
+		rep["genesis"] = g // the exported content itself, in the vocabulary of spec/Genesis.tla
+	} else {
+		rep["genesis"] = M{"aol": M{"owners": []any{}, "topics": []any{}, "writers": []any{}, "records": []any{}}, "did": []any{}, "denoms": []any{}, "pnfts": []any{},
+			"nDenoms": 0, "nPnfts": 0, "junk": []any{"unparsable: " + e.Error()}}
+	}
 	rep["exportTwiceEqual"] = bytes.Equal(exp1.AppState, exp2.AppState)
 	// custom modules' own genesis validation
 	valid := true
